@@ -65,11 +65,16 @@ def worker(job):
     def bump(k):
         dist[k] = dist.get(k, 0) + 1
     seen = set()
+    hangs = 0
     try:
         for c, line, m in zip(cases, lines, model):
+            if hangs >= 3:
+                bump('skipped_after_three_hangs')     # (each hang costs a watchdog period; three are enough to report)
+                continue
             obs, recs = dagcase.run_real(c, wd)
             rec = recs[0]
             rep['evaluations'] += 1
+            hangs += sum(1 for r in recs if str(r.get('status', '')).startswith('HANG'))
             if c.get('pk'):
                 bump('task_objects_are_copies:' + dagcase.PK_KINDS[c['pk']])
             while dagcase.COPY_FAILED:
